@@ -43,8 +43,8 @@ SOURCES = [  # flags, limit flux factor, confidences
 
 
 def perms_for(n, tier):
-    if n <= 4:
-        return list(itertools.permutations(range(n)))
+    if n <= 4 or (tier == 'thorough' and n <= 6):
+        return list(itertools.permutations(range(n)))          # thorough: every permutation of up to 6 models
     out = [tuple(range(n)), tuple(reversed(range(n)))]
     out += [tuple((i + r) % n for i in range(n)) for r in range(1, n)]
     for i in range(n - 1):
@@ -58,8 +58,10 @@ def setup(tier, seed):
     out = []
     for mode in ('2d', '3d'):
         for iv in range(len(VARIANTS)):
-            for n in (1, 2, 3, 4, 5, 8):
+            for n in ((1, 2, 3, 4, 5, 8) if tier == 'quick' else (1, 2, 3, 4, 5, 6, 8)):
                 for p in perms_for(n, tier):
+                    if tier == 'thorough' and n == 6 and not (iv == 0 or (mode == '2d' and iv == 1)):
+                        continue          # 720 permutations: per-file packages in both modes, cube packages in the distance-independent mode
                     if tier == 'quick' and n == 4 and iv != 0 and (sum(i * x for i, x in enumerate(p)) + seed) % 3:
                         continue
                     out.append({'mode': mode, 'variant': iv, 'n': n, 'perm': list(p)})
@@ -80,7 +82,7 @@ def cases(ctx):
 
 
 def evidence_extra(ctx):
-    return {'bounds': 'n_models {1,2,3,4 all permutations; 5,8 covering set} x 2 modes x 3 load variants x 7 sources (+ remove_resolved on/off in the distance-dependent mode)',
+    return {'bounds': 'n_models {1,2,3,4 all permutations (thorough: 5 and 6 too); 5,8 covering set} x 2 modes x 3 load variants x 7 sources (+ remove_resolved on/off in the distance-dependent mode)',
             'alphabet_digest': 'seed=%d' % ctx['seed']}
 
 
